@@ -28,7 +28,7 @@ import math
 
 from hypothesis import strategies as st
 
-from vp.core.framework import Violation, hyp_run, shard_seed
+from vp.core.framework import Violation
 from vp.props import c23 as H
 
 ID = "C24"
@@ -266,4 +266,4 @@ def run_shard(col, cfg):
             if n:
                 col.count(k, n)
 
-    hyp_run(cases(cfg["max_ops"]), body, cfg["per_shard"], shard_seed(col.seed, col.shard), col)
+    H.run_chunks(col, cfg, cases(cfg["max_ops"]), body)
